@@ -9,7 +9,7 @@ Lemmas about the spec functions (independent of the code): F_k is injective on t
 """
 from core import VC
 from nvwp import V, AND, IMP, lit
-from wplib import IdEnvWP, h_std_get, h_array_fill, declare_array, array_name, load, reach_vc, array_len, STD_ARRAY_MEMBERS, STD_NUMERIC_CALLS, iter_hook
+from wplib import IdEnvWP, h_std_get, h_array_fill, declare_array, array_name, load, reach_vc, array_len, STD_ARRAY_MEMBERS, STD_NUMERIC_CALLS, iter_hook, aggr_hook, STD_COPY_CALLS
 import re
 import astload
 import nvwp
@@ -148,6 +148,41 @@ def mk(name, decl, select, R, post, about, idx_names=None, signed=False, end_inc
     return vcs, {'c_name': name, 'cxx': decl, 'file': HDR, 'line': fn.get('loc', {}).get('line'), 'sha': astload.file_hash(HDR)}
 
 
+def mk_builder(name, decl, select, post, about):
+    """make_dims / cat_dims: the dims BUILDERS.  No tensor invariant is assumed on their inputs (they are plain value
+    shuffles: any long values); aggregate initialisation of std::array and std::copy between std::arrays are wplib vocabulary"""
+    docs, fn = load(TU, FLT, decl, select)
+    wp = IdEnvWP(name, calls=CALLS + STD_COPY_CALLS, members=MEMBERS, hooks=[iter_hook, aggr_hook], bindings=nvwp.template_bindings(docs, fn))
+    keys = wp.bind_params(fn)
+    wp.args = []
+    for key, p in keys:
+        n = array_len(p['type'])
+        if n is not None:
+            declare_array(wp, key, n)
+            wp.args.append([wp.env[f'{key}.{k}'].t for k in range(n)])
+        else:
+            wp.env[key] = wp.fresh('Int', key, 'long')
+            wp.assume(wp.in_range(wp.env[key].t, 'long'))
+            wp.args.append(wp.env[key].t)
+    wp.post = post
+    wp.run(fn, HDR)
+    if wp.returns == 0:
+        raise astload.ExtractionError(f'{name}: no return path')
+    vcs = wp.vcs(name, HDR, about)
+    vcs.append(reach_vc(wp, name, HDR))
+    return vcs, {'c_name': name, 'cxx': decl, 'file': HDR, 'line': fn.get('loc', {}).get('line'), 'sha': astload.file_hash(HDR)}
+
+
+def post_array(want):
+    """the returned array has exactly len(want(wp)) elements and element k is want(wp)[k]"""
+    def post(wp, rv):
+        w = want(wp)
+        if rv is None or rv.s != 'Array' or rv.c != len(w):
+            return [(f'returns an array of {len(w)} extents', 'false')]
+        return [(f'result[{k}] == {lab}', f'(= {wp.env[f"{rv.t}.{k}"].t} {t})') for k, (lab, t) in enumerate(w)]
+    return post
+
+
 def sel(targs=None, nparams=None):
     def s(d):
         ta = astload.template_args(d)
@@ -258,6 +293,15 @@ def build(tier):
             add(mk(f'get_index0<0,{R}>/1 end-inclusive', 'get_index0', sel([0, R], 2), R, post_end, 'offset of a row index in [0, dims[0]]', end_inclusive=True))
             add(mk(f'index0<{R}>/1 end-inclusive', 'index0', sel([R], 2), R, post_end, 'offset of a row index in [0, dims[0]]', end_inclusive=True))
 
+    # make_dims(sizes...) == (sizes...) for 1..5 sizes; cat_dims(size, dims) == (size, dims[0], .., dims[R-1]) for R = 1..4
+    for N in (1, 2, 3, 4, 5):
+        add(mk_builder(f'make_dims<{N}>', 'make_dims', lambda d, N=N: bool(astload.template_args(d)) and len(astload.param_types(d)) == N,
+                       post_array(lambda wp: [(f'sizes[{k}]', t) for k, t in enumerate(wp.args)]), 'dims from a list of sizes'))
+    for R in (1, 2, 3, 4):
+        add(mk_builder(f'cat_dims<{R}>', 'cat_dims', sel([R], 2),
+                       post_array(lambda wp: [('size', wp.args[0])] + [(f'dims[{k}]', t) for k, t in enumerate(wp.args[1])]),
+                       'dims with one more leading extent'))
+
     vcs += lemmas()
     import tspec
     import cspec
@@ -291,6 +335,9 @@ def build(tier):
             'algorithm.h remove_if(op, rank-1 tensor) (CBMC, the real loops under loop contracts, real array of symbolic length): every index of [0, size) is examined, in order, nothing outside; '
             'returns the number of kept elements; the ORIGINAL value of every kept element g ends at position #(kept before g) < ret (compaction in order); detail::size, detail::copy (rank 1); '
             'the same contract on the (rank 1, rank 2, rank 1) instantiation that solver/bundle.h uses (expanded pack, one target per tracked tensor; rows of the rank-2 tensor are opaque tokens)',
+            'dims.h builders (SMT, no invariant assumed on the inputs): make_dims(sizes...) for 1..5 sizes returns exactly the array (sizes...) (a narrowing pack expansion is refuted by its '
+            'conversion obligation); cat_dims(size, dims) for source ranks 1..4 returns exactly (size, dims[0], .., dims[R-1]); the make_dims call-site contract used by the tensor.h / storage.h '
+            'targets is now this proved clause',
             'range.h: tensor_range_t(begin, end), make_range, begin, end, size (== end - begin, no overflow for ends in (-2^62, 2^62)), valid(n) <=> 0 <= begin < end <= n',
             'pointer level (CBMC, ranks 1..3): in tvector / ttensor / tmatrix / tslice the real expression ptr + offset0(..) stays inside the array object of size() doubles and the mapped range '
             '[pointer, pointer + extent) is addressable memory of that object; operator()(index) returns data() + index inside the object. The offsets\' contracts are ASSUMED there exactly as '
@@ -309,7 +356,7 @@ def build(tier):
                         'implicit member destruction (~tensor_vector_storage_t has no statement in the AST), allocation failure (std::bad_alloc path)', 'summed-area table VALUES for ranks >= 2 and for floating-point outputs',
                         'Eigen Map construction itself (map_vector / map_matrix / map_tensor are constructors: their result is modelled as (pointer, extent))',
                         'detail::copy on rank >= 2 tensors (assigns tensor_map_t temporaries: object semantics) -- in the three-tensor remove_if target it is an ASSUMED contract (row idst := row isrc, rows in range checked)',
-                        'make_dims / cat_dims (aggregate initialisation of std::array)', 'tensor.h numeric helpers (zero, full, random, min, max, ... : Eigen expressions over vector())'],
+'tensor.h numeric helpers (zero, full, random, min, max, ... : Eigen expressions over vector())'],
         'assumptions': ['tensor invariant: every extent >= 0 and every suffix product of the extents <= 2^62 (precondition, reported)',
                         'template arguments of calls inside templates are read from the source text and evaluated under the instantiation bindings',
                         'std::accumulate over a std::array range (wplib, used only if the source calls it): [accumulate] semantics with the accumulator of the type of init, the partial result '
@@ -323,7 +370,9 @@ def build(tier):
                         'indexed(indices, mem&) / indexed(indices): the gathered shape is itself a valid tensor shape: indices.size() * P_1 <= 2^62',
                         'Eigen (ASSUMED contracts): Map = expr and Map += Map copy / add coefficient k to coefficient k and require equal lengths (Eigen asserts it; a Map cannot be resized), '
                         'cast<T>() keeps the coefficients, vector.resize(n) allocates n coefficients',
-                        'make_dims(sizes...) is the array of its arguments; std::array copy assignment is element-wise',
+                        'std::array copy assignment is element-wise; aggregate initialisation of std::array<long, N> from a braced list ([dcl.init.aggr]: element k from initialiser k, '
+                        'the rest value-initialised) and std::copy between two std::arrays at constant iterator positions ([alg.copy]; range / room / overlap preconditions are obligations) '
+                        'are wplib vocabulary (engine/wplib.py aggregate_array, h_std_copy)',
                         'remove_if: op is a pure function of the index (libnano\'s callers read tensors that remove_if is compacting, but only at positions >= curr, which are still original); '
                         'all tensors passed together have the same size<0>() (true of the three call sites: slices [0, m_size) of equally long buffers)',
                         'integral_t<1>::get: tensors of at most 10^6 elements (bound on the symbolic array length; keeps |running sum| <= 2^31 * 10^6 < 2^63)',
